@@ -455,12 +455,24 @@ def solve_pareto_front(
     for vname in minimize_vars:
         opt.minimize(z3.Int(vname))
 
+    objectives = [z3.Int(vname) for vname in minimize_vars]
     results: list[dict[str, int]] = []
     while opt.check() == z3.sat:
         m = opt.model()
         results.append(_int_assignments(m))
         if max_solutions is not None and len(results) >= max_solutions:
             break
+        # Exclude this point and everything it dominates: a further solution must be
+        # strictly better in at least one objective. Without this the enumeration does
+        # not terminate when there is a single objective.
+        opt.add(
+            z3.Or(
+                *[
+                    v < m.eval(v, model_completion=True)
+                    for v in objectives
+                ]
+            )
+        )
 
     return results
 
